@@ -21,10 +21,15 @@ W8(r) == r.fn = "new_cert" /\ r.tz \notin {-1000, 0} /\ r.tz2 = -1000
 W9(r) == r.fn = "derive" /\ r.idform = "typed" /\ r.issuer.t # 8
 W10(r) == r.fn = "derive" /\ r.idform = "escaped" /\ r.issuer.t = 8
 W11(r) == r.fn = "derive" /\ r.idform = "short"
+W18(r) == r.enc # "spki" /\ Readable(r) /\ r.fn \in {"self_sign", "sign_req"} /\ ContentExpect(r).carried
+W19(r) == ~Readable(r) /\ r.enc # "opaque"
+W20(r) == r.enc = "opaque" /\ r.publen = 0
+W21(r) == r.pubbuf \in {"bytearray", "memoryview-slice"} /\ r.enc # "spki"
 ASSUME PrintT(<<"WITNESSES", [OuterNarrows5to3 |-> Wit(W5b), NaiveOnNonUtcHost |-> Wit(W15), DstZone |-> Wit(W16), YearBelow1000 |-> Wit(W17),
                                LeapDayWithSameDay |-> Wit(W12), KeyInsideIdentity |-> Wit(W13), ReservedWordInIdentity |-> Wit(W14),
                                NaiveStartAwareEnd |-> Wit(W7), AwareStartNaiveEnd |-> Wit(W8), TypedTextId |-> Wit(W9),
-                               EscapedTextId |-> Wit(W10), ShorthandTextId |-> Wit(W11), Shrink |-> Wit(W1), LeapDayNoSameDay |-> Wit(W2), Version4 |-> Wit(W3),
+                               EscapedTextId |-> Wit(W10), NonCanonicalKeyOwnSigned |-> Wit(W18), KeyEncodingImportersDoNotRead |-> Wit(W19),
+                               EmptyKeyBits |-> Wit(W20), NonCanonicalKeyInWritableBuffer |-> Wit(W21), ShorthandTextId |-> Wit(W11), Shrink |-> Wit(W1), LeapDayNoSameDay |-> Wit(W2), Version4 |-> Wit(W3),
                                YearBoundary |-> Wit(W4), LongOuter |-> Wit(W5), NonUtcZone |-> Wit(W6)],
                 "COUNT", Cardinality(ReqSpace)>>)
 =============================================================================
